@@ -124,7 +124,8 @@ def _build_container(payload, meta, tr, extra_sections=()):
         return {'main': elf(secs + list(extra_sections)), 'files': {}}
     if t == 'link':
         inner = tr.get('inner', {'t': 'plain'})
-        dbg = build_container(payload, meta, inner)['main']
+        # (link sections given by the caller go where a distribution puts them: into the debug file the link leads to)
+        dbg = build_container(payload, meta, inner, extra_sections=extra_sections)['main']
         fname = tr.get('fname', b'x.debug')
         crc = zlib.crc32(dbg) & 0xffffffff
         if not tr.get('crc_ok', True):
@@ -448,6 +449,21 @@ def run_sup(ctx, case):
             ctx.fail('sup|%s|%s|%s' % (case['style'], form, 'resolved' if resolved else 'unresolved'), 'loader=%s follow_links=%s: expected %r got %r' % (loader, follow, want[:3], got[:3]), case)
         if (di.supplementary_dwarfinfo is not None) != resolved:
             ctx.fail('sup|%s|supplementary_dwarfinfo-presence' % case['style'], 'loader=%s follow_links=%s -> %r' % (loader, follow, di.supplementary_dwarfinfo), case)
+    # the two kinds of link composed (the layout of distribution debug packages): a stripped file whose .gnu_debuglink leads to the debug file,
+    # which in turn carries the supplementary link - the view through the stripped file resolves the supplementary strings as well
+    try:
+        c2 = build_container(payload, meta, {'t': 'link', 'crc_ok': True, 'inner': main_tr, 'fname': b'main.debug'}, extra_sections=extra)
+        c2['files'][fname] = sup
+        di = open_container(c2, loader=True).get_dwarf_info(follow_links=True)
+        cu = next(di.iter_CUs())
+        got = [bytes(d.attributes['DW_AT_name'].value) if isinstance(d.attributes['DW_AT_name'].value, (bytes, bytearray)) else d.attributes['DW_AT_name'].value
+               for d in cu.iter_DIEs() if not d.is_null() and d.tag == 'DW_TAG_variable']
+        if got != strs or di.supplementary_dwarfinfo is None:
+            ctx.fail('sup|%s|behind-a-debuglink' % case['style'], 'stripped file -> .gnu_debuglink -> debug file -> supplementary file: expected %r got %r (supplementary view %s)' % (
+                strs[:3], got[:3], 'present' if di.supplementary_dwarfinfo is not None else 'absent'), case)
+        ctx.count('sup.behind-a-debuglink')
+    except Exception as e:  # noqa
+        ctx.fail_exc('sup|%s|behind-a-debuglink' % case['style'], e, case)
     # the same pair on disk, reached through ELFFile.load_from_path and the library's own relative loader: dwz-style link name with '..',
     # the directory of the main file reached through its real path and through a directory symlink of another depth (the operating system
     # resolves the symlink before '..'); a namesake with other strings sits where a textual collapse of 'link/..' would look
